@@ -106,7 +106,7 @@ Section Machines.
   Lemma remm0_count mm : (mm < M)%nat ->
     nthZ (remm0 I) mm = Z.of_nat (length (filter (onm mm) (all_keys I))).
   Proof.
-    intros Hm. unfold remm0. rewrite outer_fold.
+    intros Hm. unfold remm0, count_mach. rewrite outer_fold.
     - unfold nthZ, zeros. rewrite nth_repeat by exact Hm. lia.
     - intros k a Hk Ha. unfold zeros. rewrite repeat_length. apply (kmachines_lt k a Hk Ha).
     - unfold zeros. rewrite repeat_length. exact Hm.
